@@ -465,6 +465,19 @@ func (c *caseRun) push(forceStatus bool) {
 	synctest.Wait()
 }
 
+// forceCrumb publishes a status that differs from the newest crumb's, which always makes a new crumb.
+func (c *caseRun) forceCrumb() {
+	s := api.ResyncInProgress
+	if c.cache.CurrentBreadcrumb().SyncStatus == api.ResyncInProgress {
+		s = api.InSync
+	}
+	c.status = s
+	c.cache.OnStatusUpdated(s)
+	c.cache.VerifPump(c.ctx)
+	c.pushes = append(c.pushes, "[(ES "+statusNames[s]+")]")
+	synctest.Wait()
+}
+
 func (c *caseRun) sleep() {
 	d := []time.Duration{0, time.Millisecond, 20 * time.Millisecond, 150 * time.Millisecond, 400 * time.Millisecond}[c.r.intn(5)]
 	if d > 0 {
@@ -697,8 +710,7 @@ func runCase(t *testing.T, seed uint64) vline {
 		}
 		// let the binary snapshot cache's goroutine finish: past its validity time it waits for one more crumb
 		time.Sleep(2 * time.Second)
-		c.push(true)
-		c.push(true)
+		c.forceCrumb()
 		time.Sleep(2 * time.Second)
 		synctest.Wait()
 		c.cache.VerifStop()
